@@ -327,7 +327,7 @@ Section SrcTheorems.
   Variable isdigit : str -> bool.
   Variable int_of : str -> option N.
   Variable fx : fstate -> res fstate.
-  Hypothesis O_fx : forall s, fx s = docutils_footnotes s.
+  Hypothesis O_footnotes_xform_fx : forall s, fx s = docutils_footnotes s.
 
   Lemma auto_order_sorted_src ft d r :
     run_src isdigit int_of fx true ft d = Ok r ->
@@ -337,7 +337,7 @@ Section SrcTheorems.
       index_of (lbl fa) (auto_ref_labels isdigit r) = Some i ->
       index_of (lbl fb) (auto_ref_labels isdigit r) = Some j ->
       (i < j)%nat -> ka < kb.
-  Proof. intro H. rewrite run_src_eq in H by exact O_fx. exact (auto_order_sorted isdigit int_of fx O_fx ft d r H). Qed.
+  Proof. intro H. rewrite run_src_eq in H by exact O_footnotes_xform_fx. exact (auto_order_sorted isdigit int_of fx O_footnotes_xform_fx ft d r H). Qed.
 
   Lemma referenced_first_src ft d r :
     run_src isdigit int_of fx true ft d = Ok r ->
@@ -347,14 +347,14 @@ Section SrcTheorems.
       index_of (lbl fa) (auto_ref_labels isdigit r) = Some i ->
       index_of (lbl fb) (auto_ref_labels isdigit r) = None ->
       ka < kb.
-  Proof. intro H. rewrite run_src_eq in H by exact O_fx. exact (referenced_first isdigit int_of fx O_fx ft d r H). Qed.
+  Proof. intro H. rewrite run_src_eq in H by exact O_footnotes_xform_fx. exact (referenced_first isdigit int_of fx O_footnotes_xform_fx ft d r H). Qed.
 
   Lemma collect_layout_src ft d r :
     run_src isdigit int_of fx true ft d = Ok r ->
     x_layout r = flat_map strip_top (snd (render_doc isdigit regs0 d))
                  ++ transition_for ft (snd (render_doc isdigit regs0 d)) (x_foots r)
                  ++ map (fun f => LFoot (f_label (fo_fn f))) (isort (collect_key int_of) ckey_leb (x_foots r)).
-  Proof. intro H. rewrite run_src_eq in H by exact O_fx. exact (collect_layout isdigit int_of fx O_fx ft d r H). Qed.
+  Proof. intro H. rewrite run_src_eq in H by exact O_footnotes_xform_fx. exact (collect_layout isdigit int_of fx O_footnotes_xform_fx ft d r H). Qed.
 
   Lemma collect_sorted_src ft d r :
     run_src isdigit int_of fx true ft d = Ok r ->
@@ -362,11 +362,23 @@ Section SrcTheorems.
     layout_foots (flat_map strip_top (snd (render_doc isdigit regs0 d))) = [] /\
     Permutation sorted (x_foots r) /\
     StronglySorted (fun a b => ckey_leb (collect_key int_of a) (collect_key int_of b) = true) sorted.
-  Proof. intro H. rewrite run_src_eq in H by exact O_fx. exact (collect_sorted isdigit int_of fx ft d r H). Qed.
+  Proof. intro H. rewrite run_src_eq in H by exact O_footnotes_xform_fx. exact (collect_sorted isdigit int_of fx ft d r H). Qed.
 
   Lemma warnings_exact_src fs ft d r :
     run_src isdigit int_of fx fs ft d = Ok r ->
     exists tm, x_warn r = map WDup (dupls [] (all_defs d)) ++ tm ++ flat_map unref_warn (x_foots r)
                /\ (tm = [] \/ tm = [WTooMany]).
-  Proof. intro H. rewrite run_src_eq in H by exact O_fx. exact (warnings_exact isdigit int_of fx O_fx fs ft d r H). Qed.
+  Proof. intro H. rewrite run_src_eq in H by exact O_footnotes_xform_fx. exact (warnings_exact isdigit int_of fx O_footnotes_xform_fx fs ft d r H). Qed.
 End SrcTheorems.
+
+Lemma only_named_footnotes isdigit d :
+  let g := fst (render_doc isdigit regs0 d) in
+  Forall (fun f => fn_names f = [f_label f] /\ In (f_label f) (g_nameids g)) (g_autofootnotes g ++ g_footnotes g) /\
+  Forall (fun f => f_auto f = true /\ isdigit (f_label f) = false) (g_autofootnotes g) /\
+  Forall (fun f => f_auto f = false /\ isdigit (f_label f) = true) (g_footnotes g).
+Proof.
+  cbv zeta. pose proof (step_ok_doc isdigit (fun _ => None) d regs0 (wf_regs0 isdigit)) as [W _].
+  split; [|split; [apply (wf_auto _ _ W)|apply (wf_manual _ _ W)]].
+  apply Forall_forall. intros f Hf. split; [reflexivity|].
+  eapply Permutation_in; [apply (wf_labels _ _ W)|]. apply in_map. exact Hf.
+Qed.
